@@ -50,6 +50,8 @@ fn tags_bases() -> Vec<Vec<u8>> {
         b"[[]]".to_vec(),
         br#"[["a","b"],["c"],[],["d","\u00e9\n","\"q\""]]"#.to_vec(),
         b"[ [ \"x\" , \"y\" ] , [ \"z\" ] ]".to_vec(),
+        // escapes at the UTF-8 length boundaries
+        br#"[["\u0080"],["a","\u0800","\u07ff\u0080"]]"#.to_vec(),
         // structural characters and trailing backslashes inside strings
         br#"[["a]","[b","c\\"],["\\","],[\"","{"]]"#.to_vec(),
     ]
@@ -61,6 +63,10 @@ fn unescape_bases() -> Vec<Vec<u8>> {
         br#"a\n\t\"\\\/\b\f\r\u00e9\u20AC x" tail"#.to_vec(),
         "é€😀\u{7f}\"".as_bytes().to_vec(),
         b"\"".to_vec(),
+        // escapes of the code points on both sides of every UTF-8 length boundary (1|2, 2|3 bytes, surrogate gap, BMP end)
+        br#"\u007f\u0080\u07ff\u0800\ud7ff\ue000\uffff""#.to_vec(),
+        br#"x\u0080""#.to_vec(),
+        br#"\u0800y""#.to_vec(),
     ]
 }
 
